@@ -90,9 +90,15 @@ def target_text(a, shape, A, label):
     raise MachineryError(f"unknown shape {shape}")
 
 
-def operand_text(a, shape, A, variant, label=None):
+def operand_text(a, shape, A, variant, label=None, symtab=None):
+    """symtab: a list that collects (name, value) pairs; when given, every numeric value of the operand (inline number, immediate,
+    index, absolute address) is written as a symbol the caller defines further down (a forward reference)"""
     k, r, v = a["k"], a["r"], a["v"]
     R = reg(r, variant)
+    if symtab is not None and k in ("Index", "IndexDef", "Imm", "Abs", "Num"):
+        name = "fwq%d" % len(symtab)
+        symtab.append((name, v))
+        return {"Index": "%s(%s)" % (name, R), "IndexDef": "@%s(%s)" % (name, R), "Imm": "#" + name, "Abs": "@#" + name, "Num": name}[k]
     if k == "Reg":
         return R
     if k == "RegDef":
@@ -130,14 +136,14 @@ def operand_text(a, shape, A, variant, label=None):
     raise MachineryError(f"unknown operand kind {k}")
 
 
-def instr_text(rec, variant, labels=None):
+def instr_text(rec, variant, labels=None, symtab=None):
     """one instruction statement; labels: per operand the label name to use (or None)"""
     shape = rec.get("sh", "std")
     if shape == "-":
         shape = "std"
     ops = []
     for j, a in enumerate(rec["args"]):
-        ops.append(operand_text(a, shape, rec["a"], variant + j, labels[j] if labels else None))
+        ops.append(operand_text(a, shape, rec["a"], variant + j, labels[j] if labels else None, symtab))
     sep = ", " if variant % 2 == 0 else ","
     return rec["op"] + ((" " + sep.join(ops)) if ops else "")
 
@@ -251,13 +257,22 @@ def run_batch(task):
     """task = (base, [(line, words)]): position-independent accepted forms as one program.
     On a mismatch every line is assembled alone to find the culprits."""
     base, items = task
-    src = ".link %o\n" % base + "\n".join(ln for ln, _ in items) + "\n"
-    want = b"".join(words_bytes(w) for _, w in items)
-    r = asm([("batch.mac", src)], timeout=120)
+    src = ".link %o\n" % base + "\n".join(it[0] for it in items) + "\n"
+    want = b"".join(words_bytes(it[1]) for it in items)
+    fs = None
+    if len(items) >= 8 and zlib.crc32(src.encode()) % 2 == 0:
+        # every other batch stands in two sibling include files; the second one writes its numbers as symbols that the main file
+        # defines (and exports) at its end, so that it is full of symbol operands where the first one has registers and numbers
+        h = len(items) // 2
+        symtab = []
+        second = [instr_text(it[2], it[3], symtab=symtab) for it in items[h:]]
+        fs = {"b1.mac": "\n".join(it[0] for it in items[:h]) + "\n", "b2.mac": "\n".join(second) + "\n"}
+        src = (".link %o\n" % base + '.include "b1.mac"\n.include "b2.mac"\n' + "".join("%s == %s\n" % (n, octs(v)) for n, v in symtab))
+    r = asm([("batch.mac", src)], timeout=120, fs=fs)
     if r["outcome"] == "ok" and r["code"] == want and r["base"] == base:
         return []
     bad = []
-    for ln, w in items:
+    for ln, w in [(it[0], it[1]) for it in items]:
         s1 = ".link %o\n%s\n" % (base, ln)
         r1 = asm([("case.mac", s1)], timeout=10)
         if not (r1["outcome"] == "ok" and r1["code"] == words_bytes(w) and r1["base"] == base):
@@ -312,7 +327,7 @@ class Replay:
         else:
             self.reject += 1
         if rec["ok"] and rec["pic"] and not neg_imm8(rec):
-            self.by_base.setdefault(rec["a"], []).append((instr_text(rec, variant), tuple(rec["w"])))
+            self.by_base.setdefault(rec["a"], []).append((instr_text(rec, variant), tuple(rec["w"]), rec, variant))
             if variant % 16 == 0:
                 self.alone.append((rec, variant + 1))       # a share of them also alone
         else:
